@@ -6,8 +6,9 @@ use std::cmp::Ordering;
 
 pub const ALNUM: usize = 6;
 
+/// one-character digest; class 6 = [0-9a-z] (includes the reserved d / r / e), class 8 = {a, b, r}
 fn digest() -> String {
-    sym::string(ALNUM, 1, 1)
+    sym::string(sym::param(1) as usize, 1, 1)
 }
 
 /// the stated order: resolution markers lowest, then index, then byte-wise identifier text
@@ -32,7 +33,7 @@ pub fn records(n: usize) -> Vec<(Revision, Option<Revision>)> {
             recs.push((Revision::new(1u32, digest(), None), None));
         } else if k == 1 {
             // child of a revision that is not recorded
-            let ghost = Revision::new_updated(digest(), &Revision::new(1u32, digest(), None));
+            let ghost = Revision::new_updated(digest(), &Revision::new(1u32, "g", None));
             recs.push((Revision::new_updated(digest(), &ghost), Some(ghost)));
         } else {
             let j = (k - 2) / 3;
@@ -116,21 +117,23 @@ fn check_against_spec(t: &RevisionTree, recs: &[(Revision, Option<Revision>)]) {
     }
 }
 
-/// params: [n]. C05 + C01-S1: the tree built by `add` in recording order and the tree built by
-/// unvalidated_add in an arbitrary order + validate both equal the rule.
+/// params: [n, digest class, hash-order mode for the second tree]. C05 + C01-S1: the tree built incrementally by `add` in an arbitrary order of
+/// learning and the tree built by unvalidated_add in the opposite order (+ one re-delivery) + validate
+/// both equal the rule.
 pub fn tree_rule() {
     let n = sym::param(0) as usize;
     let recs = records(n);
-    let mut a = RevisionTree::new();
-    for (r, p) in &recs {
-        a.add(r.clone(), p.clone(), false);
-    }
-    let spec = dedup(&recs);
-    check_against_spec(&a, &spec);
-    // same records learned in another order (possibly with one re-delivery)
     let order = permutation(n);
-    let mut b = RevisionTree::new();
+    sym::hash_order(0);
+    let mut a = RevisionTree::new();
     for i in &order {
+        a.add(recs[*i].0.clone(), recs[*i].1.clone(), false);
+    }
+    let spec = dedup(&order.iter().map(|i| recs[*i].clone()).collect::<Vec<_>>());
+    check_against_spec(&a, &spec);
+    sym::hash_order(sym::param(2) as usize);
+    let mut b = RevisionTree::new();
+    for i in order.iter().rev() {
         b.unvalidated_add(recs[*i].0.clone(), recs[*i].1.clone(), false);
     }
     if n > 0 && sym::any_bool() {
@@ -139,7 +142,7 @@ pub fn tree_rule() {
     b.validate();
     // a duplicated revision keeps the parent of the record that arrived first; the rule is evaluated on
     // that set of records
-    let spec_b = dedup(&order.iter().map(|i| recs[*i].clone()).collect::<Vec<_>>());
+    let spec_b = dedup(&order.iter().rev().map(|i| recs[*i].clone()).collect::<Vec<_>>());
     check_against_spec(&b, &spec_b);
     if spec_b.iter().all(|(r, p)| spec.iter().any(|(q, pq)| q == r && pq == p)) {
         assert!(a.get_winner() == b.get_winner(), "winner depends on the order of learning");
@@ -148,12 +151,13 @@ pub fn tree_rule() {
     sym::reach(1);
 }
 
-/// params: [n committed, k staged]. C15-S1: unstage restores exactly the committed tree; commit clears
+/// params: [n committed, digest class, k staged]. C15-S1: unstage restores exactly the committed tree; commit clears
 /// every staged flag and changes nothing else.
 pub fn tree_stage() {
     let n = sym::param(0) as usize;
-    let k = sym::param(1) as usize;
+    let k = sym::param(2) as usize;
     let recs = records(n + k);
+    sym::hash_order(0);
     let mut t = RevisionTree::new();
     for (r, p) in &recs[..n] {
         t.add(r.clone(), p.clone(), false);
@@ -170,7 +174,9 @@ pub fn tree_stage() {
     check_against_spec(&t, &dedup(&recs));
     if sym::any_bool() {
         // discard
+        sym::hash_order(1);
         t.unstage();
+        sym::hash_order(0);
         assert!(!t.has_staging(), "staged after unstage");
         assert!(t.get_revisions().len() == before.get_revisions().len(), "unstage changed the number of revisions");
         for (r, e) in before.get_revisions() {
@@ -182,7 +188,9 @@ pub fn tree_stage() {
     } else {
         // commit
         let staged = t.clone();
+        sym::hash_order(1);
         t.commit();
+        sym::hash_order(0);
         assert!(!t.has_staging(), "staged after commit");
         assert!(t.get_revisions().len() == staged.get_revisions().len(), "commit changed the number of revisions");
         for (r, e) in staged.get_revisions() {
